@@ -42,6 +42,11 @@ unsafe impl GlobalAlloc for Counting {
         if !p.is_null() {
             let c = MEM_CUR.fetch_add(l.size(), Ordering::Relaxed) + l.size();
             MEM_PEAK.fetch_max(c, Ordering::Relaxed);
+            // "uninitialised" memory is a fixed pattern here: code that uses
+            // it (the library's Qcow2IoBuf::new, a buffer behind a short read)
+            // then behaves the same in every process instead of depending on
+            // what the heap held
+            std::ptr::write_bytes(p, 0xa7, l.size());
         }
         p
     }
@@ -68,6 +73,9 @@ unsafe impl GlobalAlloc for Counting {
         }
         let q = System.realloc(p, l, new);
         if !q.is_null() {
+            if new > l.size() {
+                std::ptr::write_bytes(q.add(l.size()), 0xa7, new - l.size());
+            }
             if new >= l.size() {
                 let c = MEM_CUR.fetch_add(new - l.size(), Ordering::Relaxed) + (new - l.size());
                 MEM_PEAK.fetch_max(c, Ordering::Relaxed);
